@@ -45,3 +45,11 @@ Print Assumptions C20_interp_between.
 Print Assumptions C20_asd_sq_is_psd.
 Print Assumptions C20_none_table.
 Print Assumptions C20_conjugates.
+Print Assumptions C20_psd_nonneg.
+Print Assumptions C20_ps_is_psd_ENBW.
+Print Assumptions C20_cs_is_csd_ENBW.
+Print Assumptions C20_cf_is_abs_Hxy.
+Print Assumptions C20_cf_db.
+Print Assumptions C20_deg_is_rad.
+Print Assumptions C20_interp_at_grid.
+Print Assumptions C20_interp_clamps.
